@@ -321,6 +321,15 @@ def run(ctx):
             def conv(a):
                 loc = a[1].astimezone(shared[a[0]])
                 return (loc.replace(tzinfo=None), loc.fold, loc.utcoffset(), loc.tzname(), loc.dst())
+            # ... and TZ strings parsed from several threads at once (the fresh-instance constructor takes no lock): a valid
+            # string gives its zone, a malformed one its ValueError, whatever other strings are being parsed
+            specs = ['EST5EDT,M3.2.0/2,M11.1.0/2', 'UTC', 'EST5EDT,M3.2.0', 'AEST-10AEDT,M10.1.0,M4.1.0/3', 'CET-1CEST,M3.5.0,M10.5.0/3', 'EST5EDT,M3.2.0/2,M11.1.0/2,M1.1.1',
+                     'XYZ-5:30', 'GMT+3', 'EST5EDT4,J60/2,J300', 'EST5EDT,', 'LHST-10:30LHDT-11,M10.1.0,M4.1.0', 'EST5EDT,4,1,0,7200,10,-1,0,7200,3600']
+
+            def build(sp):
+                z = tz.tzstr.instance(sp)
+                return (z._std_abbr, z._std_offset, z._dst_abbr, z._dst_offset, z.hasdst, repr(getattr(z, '_start_delta', None)), repr(getattr(z, '_end_delta', None)))
+            CC.concurrent_pure(ctx, 'tzstr_parses', ['dateutil.parser._parser'], build, specs, 10 if ctx.tier == 'quick' else 100, per_thread=25, prob=.25)
             CC.concurrent_pure(ctx, 'conversions', ['dateutil.tz.tz', 'dateutil.tz._common', 'dateutil.relativedelta'], conv, pool,
                                10 if ctx.tier == 'quick' else 150, per_thread=40, prob=.2,
                                render=lambda a: '%r -> zone %r' % (a[1].isoformat(), shared[a[0]]))
@@ -332,6 +341,7 @@ def floors(agg, tier):
     c, h, out = agg['counters'], agg['hits'], []
     from vf import concurrent as CC
     CC.floor(c, 'conversions', 1200, 1000, out)
+    CC.floor(c, 'tzstr_parses', 800, 1000, out)
     n = 100 if tier == 'quick' else 1500
     for k, m in (('zones_tzstr', n), ('zones_tzlocal', n), ('zones_tzrange', n // 2), ('k3_domain_triples', 3), ('fixed_offset_strings', 40),
                  ('malformed_strings', 200), ('malformed_rejected_valueerror', 150), ('oracle_vs_glibc_comparisons', 30000)):
